@@ -44,6 +44,9 @@ type atpServerSession struct {
 	runDoneChannel chan bool
 	pluginSchema   *schema.CallableSchema
 	encoderMutex   sync.Mutex
+	// stepWg counts the running step and signal handler goroutines. They report their errors through
+	// workDone, so that channel must stay open (and be drained) until all of them have finished.
+	stepWg sync.WaitGroup
 }
 
 type ServerError struct {
@@ -145,7 +148,30 @@ closeLoop:
 			break closeLoop
 		}
 	}
-	// Now close the pipe that it gets input from.
+	// Steps and signal handlers that are still running keep reporting through workDone until run()
+	// closes it. Keep receiving, so that they neither block on a full channel nor send on a closed one,
+	// and pass their errors on for as long as the output works.
+	outputFailed := false
+	for errorSent := range s.workDone {
+		errorSent := errorSent
+		errors = append(errors, &errorSent)
+		if outputFailed {
+			continue
+		}
+		err := s.sendRuntimeMessage(
+			MessageTypeError,
+			errorSent.RunID,
+			ErrorMessage{
+				Error:       errorSent.Err.Error(),
+				StepFatal:   errorSent.StepFatal,
+				ServerFatal: errorSent.ServerFatal,
+			},
+		)
+		if err != nil {
+			outputFailed = true
+			_, _ = fmt.Fprintf(os.Stderr, "error while sending error message: %s\n", err)
+		}
+	}
 	return errors
 }
 
@@ -250,10 +276,10 @@ func (s *atpServerSession) handleWorkStartMessage(runID string, workStartMsg Wor
 		return
 	}
 	s.runningSteps[runID] = workStartMsg.StepID
-	s.wg.Add(1) // Wait until the step is done
+	s.stepWg.Add(1) // Wait until the step is done
 	go func() {
+		defer s.stepWg.Done()
 		s.runStep(runID, workStartMsg)
-		s.wg.Done()
 	}()
 }
 
@@ -277,8 +303,9 @@ func (s *atpServerSession) handleSignalMessage(runID string, signalMessage Signa
 		}
 		return
 	}
-	s.wg.Add(1) // Wait until the signal handler is done
+	s.stepWg.Add(1) // Wait until the signal handler is done
 	go func() {
+		defer s.stepWg.Done()
 		if err := s.pluginSchema.CallSignal(
 			s.ctx,
 			runID,
@@ -294,13 +321,15 @@ func (s *atpServerSession) handleSignalMessage(runID string, signalMessage Signa
 				ServerFatal: false,
 			}
 		}
-		s.wg.Done()
 	}()
 }
 
 func (s *atpServerSession) run() {
 	defer func() {
 		s.runDoneChannel <- true
+		// No more steps or signals are started once the read loop has ended; wait for the running
+		// ones before closing the channel they report to.
+		s.stepWg.Wait()
 		close(s.workDone)
 		s.wg.Done()
 	}()
